@@ -83,6 +83,53 @@ CHECKS.update({
             "unchanged by clone/detach/contiguous/to; only the scale changes dtype). Tensors produced by freeze and deserialisation are projected with the same predicate in C09/C10.",
             "Strides are recorded, not judged. Grouped scale layouts of packed tensors are judged by C02/C03.",
             "DESIGN.md 3.5, 5/C06"),
+    "C07": ("MatMul.tla, Trace_MatMul.tla, Exact.tla",
+            "TLC model check of the kernel-route decision table and typed pipeline + replay of every configuration with closed-form operand families + TLC trace validation (bit-exact oracle)",
+            "MatMul.tla transcribes QTensorLinear.forward, the CPU route selection of quanto::qbytes_mm and the contraction dtype of each route; TLC checks route totality, "
+            "IntMMOnlyInt8Pair, PackOnlyBf16, LowBitFallsBack and NoIntermediateOverflow over the decision space (3 dtypes x 4 activation kinds x 5 weight qtypes x per-axis/per-tensor x "
+            "sizes on both sides of every threshold x batch ranks x bias) and emits each configuration with an operand family whose exact product it can compute (integers x powers of two). "
+            "Every configuration is executed (F.linear, torch.matmul; contiguous and strided; each call in a forked child) and TLC validates dtype, shape, finiteness and values: bit-exact on the exact "
+            "domain, accumulation bound elsewhere. The route actually taken is observed by wrapping torch._int_mm / _weight_int8pack_mm from outside.",
+            "CPU routes only. Known findings (float16 + float8 activations; bfloat16 int8-pack route) are matched by configuration signature.",
+            "DESIGN.md 3.6, 5/C07, 7.2"),
+    "C08": ("Lifecycle.tla, Trace_Lifecycle.tla",
+            "TLC model check of the life-cycle state machine + execution of TLC-generated histories on real models + TLC trace validation",
+            "Lifecycle.tla models quantize / forward / calibration contexts / freeze / optimizer steps / save / load / deepcopy; TLC checks SwapExactlyEligible and the other invariants "
+            "over all histories to depth 4-5 and generates histories (exhaustive depth 3, simulated depth 8, plus directed ones: every architecture x weight qtype x activation qtype x module filter). "
+            "Each history runs on real models (Linear / Conv2d / LayerNorm / ReLU chains, nested or flat, 2-3 dtypes); after quantize the module tree is projected (classes, names, hyper-parameters, dtype, "
+            "device, bit-identity of parameters) and every forward of every quantized module is compared by TLC with its float twin on the dequantized weight and (de)quantized input, re-quantized with the output scale.",
+            "Recipe values are compared within one step of the output grid plus an accumulation bound (C07 judges the contraction in detail). Chains of modules only.",
+            "DESIGN.md 3.7, 5/C08"),
+    "C09": ("Lifecycle.tla, Trace_Lifecycle.tla",
+            "TLC model check (FreezePreservesDenotation, FrozenNeverStale) + executed histories + TLC trace validation of output digests and payload sizes",
+            "Histories interleaving forward / calibrate / freeze / freeze-again / deepcopy for all weight and activation qtypes; bit-identical output digests before/after freeze and deepcopy, "
+            "FreezeIdempotent, biases / scales untouched, and the payload of every frozen weight: ceil(rows x bits / 8) x (numel / rows) bytes, one scale (and zero-point) per output index or group.",
+            "Device moves are CPU only. Digests are SHA-256 of the raw bytes of outputs / payloads.",
+            "DESIGN.md 3.7, 5/C09"),
+    "C10": ("Lifecycle.tla, Trace_Lifecycle.tla",
+            "TLC model check (RoundTripDenotation) + executed save/load histories + TLC trace validation",
+            "Histories quantize -> (calibrate) -> (freeze) -> save(serializer) -> load(target) -> forward -> save -> load for serializers none / pickle / weights_only / safetensors and targets default / same / requantize(); "
+            "TLC validates StateDictPlain, serializer preservation, equality of codes / scales / zero-points / qtypes / activation scales (digests), bit-identical outputs and re-save equality.",
+            "default / requantize targets only for unfiltered quantization. LayerNorm-with-activations into default / requantize targets is a known finding.",
+            "DESIGN.md 3.7, 5/C10"),
+    "C11": ("Lifecycle.tla, Trace_Lifecycle.tla",
+            "TLC model check (NoStaleWeights, FrozenNoGrad) + executed training histories + TLC trace validation",
+            "Histories of optimizer steps (real backward + update) interleaved with forwards and freeze: which leaves receive gradients (frozen weights and scales never), and after every update the next forward of each "
+            "quantized module equals its float twin on the *current* dequantized weights.",
+            "The numeric equality of the gradients with the float twin's autograd is checked by the gradient driver of this check (rank 2-4, contiguous and permuted upstream gradients).",
+            "DESIGN.md 3.7, 5/C11"),
+    "C12": ("Lifecycle.tla, Trace_Lifecycle.tla, Exact.tla",
+            "TLC model check (EmaLawStep with symbolic folds) + executed calibration histories + TLC trace validation of every scale update in exact arithmetic",
+            "Every update of every input / output scale is logged with the batch's own absmax/qmax (observed with module-level hooks installed by the harness) and validated by TLC against "
+            "s' = m*s + (1-m)*new with the momentum of the open context (first update initialises), AdoptQuantizedInputScale and NoSaturationAfterOneBatch; sequential contexts, streamline on/off, raising forwards.",
+            "Tolerance 6u per update. Under nested contexts both contexts update (modelled, not asserted). scale == 1.0 treated as uninitialised is a known finding.",
+            "DESIGN.md 3.7, 5/C12"),
+    "C13": ("Lifecycle.tla, Trace_Lifecycle.tla",
+            "TLC model check (CalibrationScoped, InferencePure) + executed histories with exceptions raised inside forwards + TLC trace validation of torch's global registries",
+            "After every action of every history the harness reads torch's global forward (pre-)hook registries and the torch-function mode stack; TLC checks that they equal the baseline plus the number of open contexts "
+            "(normal exit, nested, exit by an exception raised in module k), that a forward outside calibration leaves every parameter / buffer / scale / qtype digest and its input unchanged, and that repeated evaluation is bit-identical.",
+            "disable_extensions is outside the statement.",
+            "DESIGN.md 3.7, 5/C13"),
 })
 
 NOT_YET = {}
